@@ -547,4 +547,190 @@ theorem filter_coveringChild (cs : List Tree) (hnd : (cs.flatMap leafNums).Nodup
     · intro hn
       exact ⟨⟨c, List.mem_of_getElem? hc, hn⟩, by simpa using coveringChild_eq cs hnd i c hc n hn⟩
 
+/-! ### instantiating the extracted linearization -/
+
+/-- looking up variable `(p, j)` in the blocks of the RHS elements -/
+def lookupVar {α} (args : List (List (List α))) (p : Int × Nat) : Option (List α) :=
+  (args[p.1.toNat]?).bind (·[p.2]?)
+
+theorem instLin_eq {α} (lin : Lin) (args : List (List (List α))) :
+    instLin lin args = lin.mapM fun arg => (arg.mapM (lookupVar args)).map List.flatten := rfl
+
+/-- numbering a sequence of segments, the counters recording how many segments of each colour came before,
+    picks exactly these segments from the per-colour segment lists -/
+theorem numberArgs_lookup (col : Nat → Nat) (args : List (List (List Nat))) (n : Nat) (rest : List (List Nat)) :
+    ∀ (ss pre : List (List Nat)) (cnt : List Nat), cnt.length = n →
+    (∀ i, i < n → cnt[i]?.getD 0 = (pre.filter fun s => colh col s == i).length) →
+    (∀ i, i < n → args[i]? = some ((pre ++ ss ++ rest).filter fun s => colh col s == i)) →
+    (∀ s ∈ ss, colh col s < n) →
+    (numberArgs cnt (ss.map (colh col))).1.mapM (lookupVar args) = some ss ∧
+    (numberArgs cnt (ss.map (colh col))).2.length = n ∧
+    ∀ i, i < n → (numberArgs cnt (ss.map (colh col))).2[i]?.getD 0 =
+      ((pre ++ ss).filter fun s => colh col s == i).length
+  | [], pre, cnt, hlen, hcnt, _, _ => by
+    simp only [List.map_nil, numberArgs, List.append_nil]
+    exact ⟨rfl, hlen, hcnt⟩
+  | s :: ss, pre, cnt, hlen, hcnt, hargs, hlt => by
+    have hp : colh col s < n := hlt s List.mem_cons_self
+    have hc := hcnt _ hp
+    obtain ⟨ih1, ih2, ih3⟩ := numberArgs_lookup col args n rest ss (pre ++ [s])
+      (cnt.set (colh col s) (cnt[colh col s]?.getD 0 + 1)) (by simpa using hlen)
+      (by
+        intro i hi
+        by_cases hpi : colh col s = i
+        · subst hpi
+          rw [List.getElem?_set_self (by omega)]
+          simp [List.filter_append, hc]
+        · rw [List.getElem?_set_ne hpi, hcnt i hi]
+          simp [List.filter_append, hpi])
+      (by
+        intro i hi
+        rw [hargs i hi]
+        simp [List.append_assoc])
+      (fun s' hs' => hlt s' (List.mem_cons_of_mem _ hs'))
+    rw [List.map_cons, numberArgs_cons]
+    refine ⟨?_, ih2, ?_⟩
+    · have hl : lookupVar args ((colh col s : Nat), cnt[colh col s]?.getD 0) = some s := by
+        simp only [lookupVar, Int.toNat_natCast, hargs _ hp, Option.bind_some, hc]
+        simp [List.filter_append]
+      simp only [List.mapM_cons, hl, ih1]
+      rfl
+    · intro i hi
+      rw [ih3 i hi]
+      simp [List.append_assoc]
+
+/-- block level: with counters matching the segments `pre` already consumed -/
+theorem instLin_linOfBlocks (cs : List Tree) (args : List (List (List Nat))) (n : Nat) :
+    ∀ (bs : List (List Nat)) (pre : List (List Nat)) (cnt : List Nat), cnt.length = n →
+    (∀ i, i < n → cnt[i]?.getD 0 = (pre.filter fun s => colh (coveringChild cs) s == i).length) →
+    (∀ i, i < n → args[i]? =
+      some ((pre ++ bs.flatMap (cseg (coveringChild cs))).filter fun s => colh (coveringChild cs) s == i)) →
+    (∀ b ∈ bs, ∀ x ∈ b, coveringChild cs x < n) →
+    instLin (linOfBlocks cs cnt bs) args = some bs
+  | [], _, _, _, _, _, _ => by simp [linOfBlocks, instLin]
+  | b :: bs, pre, cnt, hlen, hcnt, hargs, hlt => by
+    have hss : ∀ s ∈ cseg (coveringChild cs) b, colh (coveringChild cs) s < n := by
+      intro s hs
+      have h1 : colh (coveringChild cs) s ∈ collapseAdj (b.map (coveringChild cs)) := by
+        rw [collapseAdj_map]; exact List.mem_map_of_mem hs
+      obtain ⟨x, hx, hxe⟩ := List.mem_map.1 (mem_collapseAdj _ _ h1)
+      rw [← hxe]
+      exact hlt b List.mem_cons_self x hx
+    obtain ⟨h1, h2, h3⟩ := numberArgs_lookup (coveringChild cs) args n (bs.flatMap (cseg (coveringChild cs)))
+      (cseg (coveringChild cs) b) pre cnt hlen hcnt
+      (by intro i hi; rw [hargs i hi]; simp [List.append_assoc]) hss
+    have ih := instLin_linOfBlocks cs args n bs (pre ++ cseg (coveringChild cs) b)
+      (numberArgs cnt ((cseg (coveringChild cs) b).map (colh (coveringChild cs)))).2 h2 h3
+      (by intro i hi; rw [hargs i hi]; simp [List.append_assoc])
+      (fun b' hb' => hlt b' (List.mem_cons_of_mem _ hb'))
+    rw [linOfBlocks_cons, collapseAdj_map, instLin_eq, List.mapM_cons, h1]
+    rw [instLin_eq] at ih
+    rw [ih]
+    simp [cseg_flatten]
+
+/-! ### well-formedness of the extracted linearization -/
+
+theorem numberArgs_ne_nil (cnt : List Nat) (ps : List Nat) (h : ps ≠ []) : (numberArgs cnt ps).1 ≠ [] := by
+  cases ps with
+  | nil => exact absurd rfl h
+  | cons p ps => rw [numberArgs_cons]; simp
+
+theorem wfLin_linOfBlocks (cs : List Tree) (bs : List (List Nat)) (fanouts : List Nat)
+    (hlen : fanouts.length = cs.length) (hbs : ∀ b ∈ bs, b ≠ [])
+    (hlt : ∀ b ∈ bs, ∀ x ∈ b, coveringChild cs x < cs.length)
+    (hcount : ∀ i, i < cs.length →
+      (bs.flatMap fun b => collapseAdj (b.map (coveringChild cs))).count i = fanouts[i]?.getD 0) :
+    wfLin (linOfBlocks cs (List.replicate cs.length 0) bs) fanouts = true := by
+  unfold wfLin
+  simp only [Bool.and_eq_true, List.all_eq_true]
+  refine ⟨⟨?_, ?_⟩, ?_⟩
+  · rintro ⟨i, j⟩ hv
+    rw [linOfBlocks_flatten] at hv
+    have hi : i ∈ (numberArgs (List.replicate cs.length 0)
+        (bs.flatMap fun b => collapseAdj (b.map (coveringChild cs)))).1.map (·.1) :=
+      List.mem_map.2 ⟨(i, j), hv, rfl⟩
+    rw [numberArgs_fst_map] at hi
+    obtain ⟨p, hp, rfl⟩ := List.mem_map.1 hi
+    obtain ⟨b, hb, hpb⟩ := List.mem_flatMap.1 hp
+    obtain ⟨x, hx, rfl⟩ := List.mem_map.1 (mem_collapseAdj _ _ hpb)
+    have := hlt b hb x hx
+    simp only [decide_eq_true_eq]
+    omega
+  · intro i hi
+    rw [List.mem_range, hlen] at hi
+    rw [linOfBlocks_flatten]
+    have h := numberArgs_filter i (bs.flatMap fun b => collapseAdj (b.map (coveringChild cs)))
+      (List.replicate cs.length 0) (by simpa using hi)
+    rw [hcount i hi] at h
+    simp only [beq_iff_eq]
+    rw [h, List.range_eq_range']
+    simp [hi]
+  · intro arg harg
+    obtain ⟨cnt', b, hb, rfl⟩ := mem_linOfBlocks cs bs _ arg harg
+    refine ⟨?_, fun x hx => List.all_eq_true.1 (numberArgs_adj _ _ (collapseAdj_noAdj _)) x hx⟩
+    have hne : collapseAdj (b.map (coveringChild cs)) ≠ [] := by
+      cases b with
+      | nil => exact absurd rfl (hbs _ hb)
+      | cons x b' =>
+        obtain ⟨r, hr⟩ := collapseAdj_cons (coveringChild cs x) (b'.map (coveringChild cs))
+        rw [List.map_cons, hr]; simp
+    have := numberArgs_ne_nil cnt' _ hne
+    simpa using this
+
+/-- the heart of C06: instantiating the extracted linearization with the children's blocks gives the node's
+    blocks (childless children contribute no token, no block and no variable, so `noEmpty` is not needed) -/
+theorem nodeRuleOK_linOf (f : Fields) (ks : List Tree)
+    (hn : (node f ks).leafNums.Nodup) : nodeRuleOK (node f ks) (linOf (node f ks)) = true := by
+  have hcs_eq : sortBy minLeaf ks = sortBy leftmost ks :=
+    sortBy_congr _ _ _ (fun a _ => (TT.Lemmas.Nav.leftmost_eq_minLeaf a).symm)
+  have hnd : ((sortBy leftmost ks).flatMap leafNums).Nodup := by
+    rw [TT.Lemmas.WF.leafNums_node] at hn
+    exact ((sortBy_perm leftmost ks).flatMap_right leafNums).symm.nodup hn
+  have hY := TT.Props.C16.yield_strictInc (node f ks) hn
+  have hmem : ∀ n, n ∈ yield (node f ks) ↔ ∃ c ∈ sortBy leftmost ks, n ∈ c.leafNums := by
+    intro n
+    rw [TT.Lemmas.WF.mem_yield, TT.Lemmas.WF.leafNums_node, List.mem_flatMap]
+    constructor
+    · rintro ⟨c, hc, h⟩; exact ⟨c, (mem_sortBy _ _ _).2 hc, h⟩
+    · rintro ⟨c, hc, h⟩; exact ⟨c, (mem_sortBy _ _ _).1 hc, h⟩
+  have hcov : ∀ x ∈ yield (node f ks),
+      coveringChild (sortBy leftmost ks) x < (sortBy leftmost ks).length := by
+    intro x hx
+    obtain ⟨c, hc, _⟩ := coveringChild_spec _ x ((hmem x).1 hx)
+    exact (List.getElem?_eq_some_iff.1 hc).1
+  have hblk : ∀ b ∈ blocks (node f ks), ∀ x ∈ b, x ∈ yield (node f ks) := by
+    intro b hb x hx
+    rw [← TT.Props.C16.blocks_partition]
+    exact List.mem_flatten.2 ⟨b, hb, hx⟩
+  have hseg : ∀ i c, (sortBy leftmost ks)[i]? = some c →
+      (segs (coveringChild (sortBy leftmost ks)) (yield (node f ks))).filter
+        (fun s => colh (coveringChild (sortBy leftmost ks)) s == i) = c.blocks := by
+    intro i c hc
+    rw [segs_filter _ _ _ hY, filter_coveringChild _ hnd _ hY hmem i c hc]
+    rfl
+  unfold nodeRuleOK linOf
+  simp only [kids, hcs_eq, Bool.and_eq_true, beq_iff_eq]
+  constructor
+  · refine wfLin_linOfBlocks _ _ _ (by simp) (TT.Props.C16.blocksOf_ne_nil _)
+      (fun b hb x hx => hcov x (hblk b hb x hx)) ?_
+    intro i hi
+    have hP : ((node f ks).blocks.flatMap fun b => collapseAdj (b.map (coveringChild (sortBy leftmost ks)))) =
+        (segs (coveringChild (sortBy leftmost ks)) (yield (node f ks))).map
+          (colh (coveringChild (sortBy leftmost ks))) := by
+      simp only [collapseAdj_map, segs, List.map_flatMap, blocks]
+    rw [hP, List.count_eq_countP, List.countP_map, List.countP_eq_length_filter]
+    have hc : (sortBy leftmost ks)[i]? = some (sortBy leftmost ks)[i] := List.getElem?_eq_getElem hi
+    have := hseg i _ hc
+    simp only [Function.comp_def]
+    rw [this]
+    simp [hc]
+  · refine instLin_linOfBlocks _ _ (sortBy leftmost ks).length _ [] _ (by simp) (by intro i hi; simp [hi]) ?_
+      (fun b hb x hx => hcov x (hblk b hb x hx))
+    intro i hi
+    have hc : (sortBy leftmost ks)[i]? = some (sortBy leftmost ks)[i] := List.getElem?_eq_getElem hi
+    have := hseg i _ hc
+    simp only [segs, blocks] at this
+    simp only [List.nil_append, List.getElem?_map, hc, Option.map_some, blocks]
+    rw [this]
+
 end TT.Lemmas.Extract
